@@ -315,6 +315,87 @@ pub fn replay_named_wide(ctx: &mut Ctx, case: &Value, oracle: Oracle, prop_tag: 
 /// first, structure otherwise). Any disagreement — and any panic in a row — is re-judged case by
 /// case through `check_api`, which produces the violation record. Operands are compared with a
 /// deep copy taken before the row.
+/// value of a diagram over usize symbols under an assignment (iterative walk)
+pub fn walk_usize(d: &BDD<usize>, a: &dyn Fn(usize) -> bool) -> bool {
+    let mut n = d;
+    loop {
+        match n {
+            BDD::True => return true,
+            BDD::False => return false,
+            BDD::Choice(t, v, e) => n = if a(*v) { t.as_ref() } else { e.as_ref() },
+        }
+    }
+}
+
+/// the assignment family used for diagrams too deep for truth tables: all-false, all-true, and
+/// for every variable index i < n: only i true, only i false, the prefix up to i true, and the
+/// prefix with every second variable true; `extra` = the two tail variables n and n + 1 run
+/// through their four combinations
+pub fn deep_assignments(n: usize) -> Vec<Box<dyn Fn(usize) -> bool>> {
+    let mut out: Vec<Box<dyn Fn(usize) -> bool>> = vec![];
+    for tail in 0..4usize {
+        let tv = move |v: usize| if v == n { tail & 1 == 1 } else { tail & 2 == 2 };
+        out.push(Box::new(move |v| if v >= n { tv(v) } else { false }));
+        out.push(Box::new(move |v| if v >= n { tv(v) } else { true }));
+        for i in (0..n).step_by(if n > 200 { 7 } else { 1 }).chain([n.saturating_sub(1), n.saturating_sub(2)]) {
+            out.push(Box::new(move |v| if v >= n { tv(v) } else { v == i }));
+            out.push(Box::new(move |v| if v >= n { tv(v) } else { v != i }));
+            out.push(Box::new(move |v| if v >= n { tv(v) } else { v <= i }));
+            out.push(Box::new(move |v| if v >= n { tv(v) } else { v > i }));
+        }
+    }
+    out
+}
+
+/// Chains of 100 .. 1600 literals (positive, negative, mixed) joined by one connective and
+/// ended by a two-variable tail, as operands of not / implies / eq / xor: the result is judged
+/// on the assignment family above against the pointwise definition.
+pub fn deep_chain_sweep(ctx: &mut Ctx, prop_tag: &str) {
+    let mut idx = 1u64 << 43;
+    for n in [100usize, 511, 512, 513, 600, 999, 1000, 1001, 1024, 1500, 1600] {
+        for shape in 0..8usize {
+            idx += 1;
+            if !ctx.mine(idx) {
+                continue;
+            }
+            let case = json!({"part": "deep-chain", "n": n, "shape": shape});
+            ctx.begin_case(|| case.clone());
+            ctx.count("deep_chain_cases", 1);
+            ctx.count("distinct_by_construction", 1);
+            let key = format!("{prop_tag} connectives on a chain of {n} literals (shape {shape})");
+            let env = rsbdd::bdd::BDDEnv::<usize>::new();
+            let r = guarded(|| -> Option<String> {
+                let lit = |i: usize| match shape % 4 {
+                    0 => env.var(i),
+                    1 => env.not(env.var(i)),
+                    2 => if i % 2 == 0 { env.var(i) } else { env.not(env.var(i)) },
+                    _ => if i % 5 == 4 { env.not(env.var(i)) } else { env.var(i) },
+                };
+                let tail = env.or(env.var(n), env.not(env.var(n + 1)));
+                let conj = shape < 4;
+                let f = (0..n).rev().fold(tail, |acc, i| if conj { env.and(lit(i), acc) } else { env.or(lit(i), acc) });
+                let g = env.var(n / 2);
+                let results = [("not(f)", env.not(f.clone())), ("implies(f, x)", env.implies(f.clone(), g.clone())), ("implies(x, f)", env.implies(g.clone(), f.clone())), ("xor(f, x)", env.xor(f.clone(), g.clone())), ("eq(f, f)", rsbdd::bdd::BDDEnv::eq(&env, f.clone(), f.clone())), ("nand(f, x)", env.nand(f.clone(), g.clone()))];
+                for a in deep_assignments(n) {
+                    let (vf, vg) = (walk_usize(&f, a.as_ref()), walk_usize(&g, a.as_ref()));
+                    let want = [!vf, !vf || vg, !vg || vf, vf != vg, true, !(vf && vg)];
+                    for ((name, d), w) in results.iter().zip(want) {
+                        if walk_usize(d, a.as_ref()) != w {
+                            return Some(format!("{name} evaluates to {} where the pointwise definition gives {w}", !w));
+                        }
+                    }
+                }
+                None
+            });
+            match r {
+                Err(p) => ctx.violation(key, format!("panicked: {p}"), case),
+                Ok(Some(m)) => ctx.violation(key, m, case),
+                Ok(None) => {}
+            }
+        }
+    }
+}
+
 /// One representative (the numerically smallest truth table) of every class of four-variable
 /// functions under permutation of the inputs, negation of inputs and negation of the output
 /// (222 classes): every "shape" a four-variable function can have.
